@@ -19,8 +19,8 @@ import pickle
 from core.engine import Property, F
 from core.prng import Rng
 from props import c01
-from props.c01 import (build, run_once, observe, model_view, markers, gen_toy, gen_builtin, shrink_case, gen_cfg,
-                       cached_failing_envs, logged_shuffled_envs, cache_bug_present)
+from props.c01 import (build, run_once, run_iso, observe, model_view, markers, gen_toy, gen_builtin, shrink_case, gen_cfg,
+                       cached_failing_envs, logged_shuffled_envs, cache_bug_present, logged_envs, has_info_learner, strip_info)
 
 
 def ids_of(triples):
@@ -62,13 +62,6 @@ def permuted_case(case, seed):
     else:
         c["pe"], c["pl"], c["pv"] = rng.shuffle(case["pe"]), rng.shuffle(case["pl"]), rng.shuffle(case["pv"])
     return c
-
-
-def snapshot(lrn):
-    try:
-        return pickle.dumps(lrn.__dict__)
-    except Exception:
-        return None
 
 
 class C03(Property):
@@ -130,6 +123,10 @@ class C03(Property):
                    "mode": "product", "pe": [0, 1, 2], "pl": [0, 1], "pv": [0], "single_eval": True,
                    "runs": [{"cfg": [1, 0, 0], "how": "inproc", "sched": 0}, {"cfg": [2, 0, 0], "how": "sim", "sched": 1}, {"cfg": [2, 2, 4], "how": "sim", "sched": 2}]})
         cs.append(c01.cache_defect_case())
+        for c in c01.directed_cases():          # process-global state between evaluations (follow-up round)
+            c = {k: v for k, v in c.items() if k != "rerun"}
+            c["runs"] = [r if r["how"] != "real" else dict(r, how="sim") for r in c["runs"]]
+            cs.append(c)
         # fixed finding F2 (e4fe683): a single triple over a logged, shuffled environment on a worker vs. alone in-process
         cs.append({"envs": [{"branches": [[["shuffle", 2]]], "log_seed": 3, "logged": True, "n": 12, "na": 2, "prefix": [], "seed": 1, "src": "linear"}], "kind": "builtin", "lrns": [{"tag": 0, "type": "pmf"}, {"seed": 4, "type": "random"}, {"eps": 0.05, "seed": 4, "type": "eps"}], "mode": "product", "pe": [1], "pl": [2], "pv": [1], "runs": [{"cfg": [2, 2, 3], "how": "sim", "sched": 921037}], "seed": 1, "vals": [{"eval": "on", "learn": "on", "record": ["reward", "action", "probability"], "seed": None, "type": "seq"}, {"eval": "on", "learn": "on", "record": ["reward", "action", "context", "time"], "seed": None, "type": "seq"}]})
         # built-in stateful learners shared between environments
@@ -154,7 +151,7 @@ class C03(Property):
         if case.get("perm"):
             variants.append(("permuted", permuted_case(case, case["perm"])))
             tags.append("permuted")
-        bad_envs = (cached_failing_envs(case) if cache_bug_present() else set()) | logged_shuffled_envs(case)
+        bad_envs = cached_failing_envs(case) if cache_bug_present() else set()
         known_defect = False
         alone_cache = {}
         nrows = 0
@@ -163,13 +160,11 @@ class C03(Property):
         obs = None
         for vname, vcase in variants:
             for run in vcase["runs"]:
-                b = build(vcase)
-                before = [snapshot(l) for l in b.lrns]
-                o = run_once(vcase, run["cfg"], run["how"], run["sched"], built=b)
+                o = run_iso(vcase, run["cfg"], run["how"], run["sched"])
                 multi = run["cfg"][0] > 1 or run["cfg"][1] != 0
                 tags.append("how:" + run["how"])
                 tags.append("cfg:%s%s" % ("multi" if multi else "inproc", ",mt>0" if run["cfg"][2] else ""))
-                triples = b.triples
+                triples = [tuple(t) for t in o["triples"]]
                 ids = ids_of(triples)
                 ntriples = max(ntriples, len(set(triples)))
                 count_l = collections.Counter(l for _, l, _ in triples)
@@ -177,7 +172,7 @@ class C03(Property):
                 seen = set()
                 for t, key in zip(triples, ids):
                     if t not in alone_cache:
-                        a = run_once(alone_case(vcase, t), [1, 0, 0], "inproc", 0)
+                        a = run_iso(alone_case(vcase, t), [1, 0, 0], "inproc", 0)
                         alone_cache[t] = (rows_at(a["result"], (0, 0, 0)), t4_markers(a["log"]))
                     arows, amarks = alone_cache[t]
                     want_markers.update(amarks)
@@ -189,8 +184,12 @@ class C03(Property):
                     if json.dumps(got, sort_keys=True) != json.dumps(arows, sort_keys=True):
                         sig = "isolation:rows-differ"
                         if t[0] in bad_envs:
-                            sig += ":cache-after-failed-read" if t[0] in cached_failing_envs(case) else ":logged-shuffle-seed"
+                            sig += ":cache-after-failed-read"
                             known_defect = True
+                        elif (has_info_learner(case) and t[0] in logged_envs(case)
+                              and json.dumps(strip_info(got), sort_keys=True) == json.dumps(strip_info(arows), sort_keys=True)):
+                            # finding F3: a `logged` environment absorbs learning_info left behind by an earlier evaluation
+                            sig += ":logged-env-learning-info"
                         what = ("missing" if arows and not got else "present although the evaluation alone records none" if got and not arows else "different")
                         fails.append(F("B", "%s triple list, cfg %s (%s): rows of triple (env %d, learner %d, evaluator %d) ids %s are %s: in the experiment %s, alone %s" % (
                             vname, run["cfg"], run["how"], t[0], t[1], t[2], list(key), what, json.dumps(got)[:300], json.dumps(arows)[:300]), sig))
@@ -204,8 +203,8 @@ class C03(Property):
                 if want_markers:
                     tags.append("with-failing-triple")
                 # the caller's shared learner objects are untouched
-                for li, l in enumerate(b.lrns):
-                    if count_l[li] > 1 and before[li] is not None and snapshot(l) != before[li]:
+                for li, modified in enumerate(o["lrn_modified"]):
+                    if count_l[li] > 1 and modified:
                         fails.append(F("B", "%s triple list, cfg %s (%s): learner object %d is listed in %d triples and was modified by run()" % (
                             vname, run["cfg"], run["how"], li, count_l[li]), "isolation:user-learner-modified"))
                 if any(v > 1 for v in count_l.values()):
@@ -245,14 +244,14 @@ class C03(Property):
 
     def snippet(self, case):
         return ("import sys, json; sys.path[:0] = ['/repo', '/verif/harness']\n"
-                "from props.c01 import run_once, build\nfrom props.c03 import alone_case, rows_at, ids_of\n"
+                "from props.c01 import run_iso\nfrom props.c03 import alone_case, rows_at, ids_of\n"
                 "case = json.loads(%r)\n"
                 "if __name__ == '__main__':\n"
                 "    for run in case['runs']:\n"
-                "        b = build(case)\n"
-                "        out = run_once(case, run['cfg'], run['how'], run['sched'], built=b)\n"
-                "        for t, key in zip(b.triples, ids_of(b.triples)):\n"
-                "            alone = run_once(alone_case(case, t), [1, 0, 0])\n"
+                "        out = run_iso(case, run['cfg'], run['how'], run['sched'])      # each run in a forked child of this process\n"
+                "        triples = [tuple(t) for t in out['triples']]\n"
+                "        for t, key in zip(triples, ids_of(triples)):\n"
+                "            alone = run_iso(alone_case(case, t), [1, 0, 0])\n"
                 "            print(run['cfg'], 'triple', t, 'ids', key, 'in experiment:', rows_at(out['result'], key), 'alone:', rows_at(alone['result'], (0, 0, 0)))\n"
                 "        print('   exceptions logged:', [l for l in out['log'] if 'TOYFAIL' in l][:5])\n" % json.dumps(case))
 
